@@ -190,6 +190,8 @@ def alias_case(case):
         if ra.rc == 0:
             alias_ok = True
         schema_change = name in ("hetero", "nested", "keyless") and "schema change" in re_.err     # documented data error of the CSV/TSV writers
+        if name == "barred" and "--barred-input" not in e_argv:
+            schema_change = True       # file-formats.md: barred PPRINT is read with --barred-input; without it the input is not well-formed PPRINT
         if case.get("must_succeed") and not re_.ok and not schema_change:
             # every battery input is inside the input format's documented domain: an expansion that fails on it makes the equality below vacuous
             add_violation(res, dict(sig_base, what="expansion-fails"),
@@ -880,7 +882,7 @@ def conv_cases(chk):
     n = len(SEP_VARIANTS) * len(fm)
     combos = [(a, b) for a in SEP_VARIANTS for b in fm if F.variant_by_name(a).fmt != b]
     rng.shuffle(combos)
-    reps = 1 if chk.quick() else 3
+    reps = 1 if chk.quick() else 2
     for j, (a, b) in enumerate(combos[:60] if chk.quick() else combos):
         for i in range(reps):
             cases.append({"shape": "aba", "formats": [a, b] if (i + j) % 2 == 0 else [b, a], "seed": f"{chk.seed}/sep-aba/{a}/{b}/{i}"})
@@ -1633,7 +1635,8 @@ def run(chk):
         "comments, blank lines); `key=value` lines and CRLF-terminated lines are not documented and not run; relative HOME / XDG_CONFIG_HOME "
         "directories inside the scratch cwd stand for the user's directories",
         "alias/must-succeed: every battery input is well-formed for the entry's input format, so a failing EXPANSION is a violation; the one exemption "
-        "is the documented data error 'schema change' of the CSV/TSV writers on the heterogeneous / nested battery inputs",
+        "is the documented data error 'schema change' of the CSV/TSV writers on the heterogeneous / nested battery inputs (and the barred PPRINT "
+        "battery input, which file-formats.md reads with --barred-input only)",
         "selection spellings: reference-main-flag-list.md defines `-i N` as the same as `--iN` (`-o N` / `--oN`, `--io N` / `--N`) by example "
         "('-i csv is the same as --icsv'; reference-verbs.md join: 'and so on'); the rule is applied to every N for which the File-format flags "
         "section lists an --iN / --oN / --N flag and to the names of shell-completion.md (gen excluded: it reads no input)",
